@@ -239,7 +239,7 @@ func Sort[T any](cmp func(a, b T) int, vs []T) {
 	if len(vs) < 2 {
 		return
 	}
-	rcmp := func(a, b T) int { return -cmp(a, b) }
+	rcmp := func(a, b T) int { return cmp(b, a) }
 	q := NewWithData(rcmp, vs)
 	for !q.IsEmpty() {
 		q.Pop()
